@@ -549,7 +549,7 @@ fn main() {
             let cfg = parse_cfg(&text).unwrap_or(ECfg { cap: 1, group: 1, workers: 1 });
             cases.push((PCase::parse(&text), cfg));
         } else {
-            if let Ok(rd) = std::fs::read_dir(format!("{}/../corpus", env!("CARGO_MANIFEST_DIR"))) {
+            if a.rest.iter().any(|x| x == "--no-corpus") {} else if let Ok(rd) = std::fs::read_dir(format!("{}/../corpus", env!("CARGO_MANIFEST_DIR"))) {
                 let mut fs: Vec<_> = rd.flatten().map(|e| e.path()).filter(|p| p.file_name().unwrap().to_string_lossy().starts_with("C07-")).collect(); fs.sort();
                 for f in fs { let text = std::fs::read_to_string(f).unwrap(); cases.push((PCase::parse(&text), parse_cfg(&text).unwrap_or(ECfg { cap: 1, group: 1, workers: 1 }))); }
             }
@@ -621,7 +621,7 @@ fn main() {
             let text = std::fs::read_to_string(rp).unwrap();
             cases.push((PCase::parse(&text), parse_cfg(&text).unwrap_or(ECfg { cap: 1, group: 1, workers: 1 })));
         } else {
-            if let Ok(rd) = std::fs::read_dir(format!("{}/../corpus", env!("CARGO_MANIFEST_DIR"))) {
+            if a.rest.iter().any(|x| x == "--no-corpus") {} else if let Ok(rd) = std::fs::read_dir(format!("{}/../corpus", env!("CARGO_MANIFEST_DIR"))) {
                 let mut fs: Vec<_> = rd.flatten().map(|e| e.path()).filter(|p| p.file_name().unwrap().to_string_lossy().starts_with("C08-")).collect(); fs.sort();
                 for f in fs { let text = std::fs::read_to_string(f).unwrap(); cases.push((PCase::parse(&text), parse_cfg(&text).unwrap_or(ECfg { cap: 1, group: 1, workers: 1 }))); }
             }
